@@ -196,7 +196,9 @@ impl Fixtures {
                 VCodec::Vp9 => frames::vp9_frame(false, i + 1, 3 + i as usize),
             }));
             if let Some(a) = &cfg.audio {
-                f.audio_ok.push(Bytes::new(frames::audio_frame(a.codec, i, 4 + i as usize).0));
+                // tags run from 2: the packet of step 1 is the code-3 Opus packet whose TOC byte the
+                // invalid code-3 fixtures share
+                f.audio_ok.push(Bytes::new(frames::audio_frame(a.codec, i + 2, 4 + i as usize).0));
             }
         }
         match cfg.audio.as_ref().map(|a| a.codec) {
